@@ -32,9 +32,19 @@ pub fn emit(seed: u64, n_streams: usize, stream_len: usize, n_raw: usize) {
     while seeds.len() < n_streams { seeds.push(r.next() as u32); }
     seeds.truncate(n_streams.max(1));
     for s in seeds {
-        let mut g = MersenneTwister::with_seed(s);
-        let out: Vec<i64> = (0..stream_len).map(|_| g.u32() as i64).collect();
-        println!("S ({}%N, {})", s, nl(&out));
+        // a panic while seeding or drawing is itself a failing input (seed, number of outputs drawn so far)
+        let drawn = std::sync::Arc::new(std::sync::atomic::AtomicUsize::new(0));
+        let d2 = drawn.clone();
+        let res = catch(move || {
+            let mut g = MersenneTwister::with_seed(s);
+            let mut out: Vec<i64> = Vec::with_capacity(stream_len);
+            for _ in 0..stream_len { out.push(g.u32() as i64); d2.fetch_add(1, std::sync::atomic::Ordering::SeqCst); }
+            out
+        });
+        match res {
+            Some(out) => println!("S ({}%N, {})", s, nl(&out)),
+            None => println!("P stream seed={} outputs_drawn_before_the_panic={}", s, drawn.load(std::sync::atomic::Ordering::SeqCst)),
+        }
     }
     // ---- raw values through the range maps
     let mut raws: Vec<u32> = Vec::new();
@@ -46,7 +56,15 @@ pub fn emit(seed: u64, n_streams: usize, stream_len: usize, n_raw: usize) {
     }
     while raws.len() < n_raw { raws.push(r.next() as u32); }
     for (i, raw) in raws.iter().enumerate() {
-        let (g0, raw) = gen_with_next(*raw);
+        let r0 = *raw;
+        let (g0, raw) = match catch(move || gen_with_next(r0)) { Some(x) => x, None => { println!("P raw value={} drawing it from a prepared state panicked", r0); continue; } };
+        {   // the four range maps must return for every raw value
+            let (a, b, c, d) = (g0.clone(), g0.clone(), g0.clone(), g0.clone());
+            if catch(move || { let mut a = a; a.f32_0_1() }).is_none() { println!("P raw value={} f32_0_1 panicked", raw); continue; }
+            if catch(move || { let mut b = b; b.i32_minmax(0, 1 << 24) }).is_none() { println!("P raw value={} i32_minmax(0, 2^24) panicked", raw); continue; }
+            if catch(move || { let mut c = c; c.f32_minmax(0.0, 1.0) }).is_none() { println!("P raw value={} f32_minmax(0, 1) panicked", raw); continue; }
+            if catch(move || { let mut d = d; d.f64_minmax(0.0, 1.0) }).is_none() { println!("P raw value={} f64_minmax(0, 1) panicked", raw); continue; }
+        }
         let f = g0.clone().f32_0_1();
         let num = (f as f64 * 4294967296.0) as u64;
         // i32_minmax with max - min <= 2^24
